@@ -4,7 +4,7 @@ set_option linter.unusedVariables false
 namespace Gen.C09
 
 /-- constant recordBatchOverhead -/
-def recordBatchOverhead : Int := 48
+def recordBatchOverhead : Int := 49
 
 /-- constant magicOffset -/
 def magicOffset : Int := 16
